@@ -71,10 +71,12 @@ impl<F: fmt::Debug + Read + Seek + SetLen> FileWithInlineMeta<F> {
                     break 0;
                 };
 
-                if line[..2] != meta::PREAMBLE && !skipping_over_corrupted_data {
-                    let debug_res = processor(ts_from(line, meta_ts), &line[2..])
-                        .map_err(Error::Processor);
-                    debug_res?;
+                if line[..2] != meta::PREAMBLE {
+                    if !skipping_over_corrupted_data {
+                        let debug_res = processor(ts_from(line, meta_ts), &line[2..])
+                            .map_err(Error::Processor);
+                        debug_res?;
+                    }
 
                     continue;
                 }
@@ -88,6 +90,9 @@ impl<F: fmt::Debug + Read + Seek + SetLen> FileWithInlineMeta<F> {
                 if next_line[..2] != meta::PREAMBLE {
                     if let Some(corruption_accepted) = corruption_callback {
                         if corruption_accepted() {
+                            // the lines up to the next intact meta section can
+                            // not be trusted, their timestamps are unknown
+                            skipping_over_corrupted_data = true;
                             continue;
                         } else {
                             return Err(Error::CorruptMetaSection);
